@@ -40,11 +40,16 @@ struct side {
     int acc_len[MAXOPS];
     int inflight;            /* message number being offered right now, -1 */
     int inflight_len;
+    unsigned char refused[8][16]; /* bytestream: buffers offered in refused calls, and where */
+    int64_t refused_at[8];
+    int refused_len[8], n_refused;
     int failed[MAXOPS];      /* message numbers whose send failed */
     int n_failed;
     int n_rcv;               /* messages received by this side */
     int64_t bytes_sent_acc, bytes_rcv;   /* bytestream: accepted / received byte counts */
-    int eof_seen, closed, term_errno;
+    unsigned char *stream;               /* bytestream: the accepted bytes, in order */
+    const unsigned char *inflight_buf;   /* bytestream: what the call in progress offers */
+    int eof_seen, closed, term_errno, gave_up;
     int last_rc, last_errno;
     /* counter ledger */
     int64_t exp_from_app_msgs, exp_from_app_bytes, exp_to_app_msgs, exp_to_app_bytes;
@@ -54,9 +59,10 @@ struct side {
 
 static struct side A, B;
 static struct xcm_socket *g_server;
-static char g_tp[16], g_script[24], g_style[12], g_prop[8];
+static char g_tp[16], g_script[24], g_style[12], g_prop[8], g_retry[16];
 static int g_bytestream, g_fin_each, g_resend, g_probe, g_sig;
 static char g_addr[256], g_certs[256];
+static int64_t g_t0;
 static unsigned char *g_buf[2];
 
 #define V(prop, sig, ...) do { if (!g_prop[0] || strcmp(g_prop, prop) == 0) mc_violation(sig, __VA_ARGS__); } while (0)
@@ -69,22 +75,37 @@ static const char *CNT_NAMES[8] = {
 static struct side *peer_of(struct side *x) { return x == &A ? &B : &A; }
 
 /* ---- C17: counters ---------------------------------------------------------------------- */
+struct cnt_ctx {
+    int64_t *c;
+    int found;
+};
+
+static void cnt_cb(const char *name, enum xcm_attr_type type, void *value, size_t len, void *cb_data)
+{
+    struct cnt_ctx *ctx = cb_data;
+    if (type != xcm_attr_type_int64 || len != sizeof(int64_t) || strncmp(name, "xcm.", 4) != 0)
+        return;
+    for (int i = 0; i < 8; i++)
+        if (strcmp(name, CNT_NAMES[i]) == 0) {
+            memcpy(&ctx->c[i], value, sizeof(int64_t));
+            ctx->found++;
+        }
+}
+
 static int read_counters(struct side *x, int64_t c[8])
 {
-    for (int i = 0; i < 8; i++) {
-        if (g_bytestream && (i % 2) == 0) {
-            c[i] = 0;
-            continue;
-        }
-        if (xcm_attr_get_int64(x->s, CNT_NAMES[i], &c[i]) < 0)
-            return -1;
-    }
-    return 0;
+    /* one attribute-tree build for all eight counters */
+    struct cnt_ctx ctx = { .c = c };
+    memset(c, 0, 8 * sizeof(int64_t));
+    xcm_attr_get_all(x->s, cnt_cb, &ctx);
+    return ctx.found == (g_bytestream ? 4 : 8) ? 0 : -1;
 }
+
+static int g_counters = 1;
 
 static void check_counters(struct side *x, const char *after, int refused)
 {
-    if (!x->s || x->closed)
+    if (!x->s || x->closed || !g_counters)
         return;
     int64_t c[8];
     if (read_counters(x, c) < 0)
@@ -169,13 +190,28 @@ static void on_received(struct side *rx, const unsigned char *buf, int rc, int c
               rx->name, (long long)(off + rc), (long long)tx->bytes_sent_acc,
               tx->inflight >= 0 ? tx->inflight_len : 0);
         }
-        for (int j = 0; j < rc; j++)
-            if (buf[j] != pay_byte(0, (size_t)(off + j))) {
-                snprintf(sig, sizeof sig, "C02/wrong-byte/tp=%s", g_tp);
-                V("C02", sig, "%s: stream byte %lld is 0x%02x, accepted stream has 0x%02x", rx->name,
-                  (long long)(off + j), buf[j], pay_byte(0, (size_t)(off + j)));
+        for (int j = 0; j < rc; j++) {
+            int64_t pos = off + j;
+            unsigned char want;
+            if (pos < tx->bytes_sent_acc)
+                want = tx->stream[pos];
+            else if (tx->inflight >= 0 && pos - tx->bytes_sent_acc < tx->inflight_len)
+                want = tx->inflight_buf[pos - tx->bytes_sent_acc];
+            else
+                break;      /* reported above as bytes-never-accepted */
+            if (buf[j] != want) {
+                /* do the bytes belong to a call that was refused? */
+                int refused = 0;
+                for (int r = 0; r < tx->n_refused; r++)
+                    if (pos - tx->refused_at[r] >= 0 && pos - tx->refused_at[r] < tx->refused_len[r] &&
+                        tx->refused[r][pos - tx->refused_at[r]] == buf[j])
+                        refused = 1;
+                snprintf(sig, sizeof sig, "C02/%s/tp=%s", refused ? "refused-bytes-in-stream" : "wrong-byte", g_tp);
+                V("C02", sig, "%s: stream byte %lld is 0x%02x, the accepted stream has 0x%02x%s", rx->name,
+                  (long long)pos, buf[j], want, refused ? " (the byte was offered at this position in a call that returned -1/EAGAIN)" : "");
                 break;
             }
+        }
         rx->bytes_rcv += rc;
         rx->exp_to_app_bytes += rc;
         return;
@@ -244,6 +280,7 @@ static void on_send_result(struct side *tx, int m, int len, int rc, int err)
                 V("C02", sig, "xcm_send(len=%d) returned %d", len, rc);
                 rc = len;
             }
+            memcpy(tx->stream + tx->bytes_sent_acc, tx->inflight_buf, rc);
             tx->bytes_sent_acc += rc;
             tx->exp_from_app_bytes += rc;
         } else if (rc == 0 && len > 0) {
@@ -292,16 +329,29 @@ static int cond_wait(struct side *x, int cond, const char *why)
 
 static int transient(int e) { return e == EAGAIN; }
 
+/* a terminal error met by side x: is it explained by the environment or by the peer? */
+static void terminal(struct side *x, const char *op, int err)
+{
+    struct side *p = peer_of(x);
+    x->term_errno = err;
+    /* virtual time only advances when the environment withholds a connection establishment until
+       tcp.connect_timeout expires; whatever either side reports after that is a consequence */
+    int timed_out = env_now_ns() - g_t0 >= 3000000000LL;
+    if (timed_out || p->gave_up || p->closed)
+        return;
+    char sig[160];
+    snprintf(sig, sizeof sig, "C04/unexpected-terminal-error/%s/%s/tp=%s", op, errname(err), g_tp);
+    V("C04", sig, "%s: %s failed with %s although the peer is alive and the environment injected no fault",
+      x->name, op, errname(err));
+}
+
 static int do_send(struct side *x, struct op *o)
 {
     char nm[32];
     int m = o->m;
     unsigned char *buf = g_buf[x->idx];
-    if (g_bytestream)
-        for (int j = 0; j < o->len; j++)
-            buf[j] = pay_byte(0, (size_t)(x->bytes_sent_acc + j));
-    else
-        pay_fill(buf, m, o->len);
+    int attempt = 0, olen0 = o->len;
+    pay_fill(buf, g_bytestream ? m * 16 : m, o->len);
     int strict = !x->blocking && strcmp(g_style, "strict") == 0;
     int sent_total = 0;
     for (;;) {
@@ -311,6 +361,7 @@ static int do_send(struct side *x, struct op *o)
         mc_sched_point("send");
         x->inflight = m;
         x->inflight_len = o->len - sent_total;
+        x->inflight_buf = buf + sent_total;
         int64_t before[8];
         int have_before = x->cnt_valid;
         memcpy(before, x->prev_cnt, sizeof before);
@@ -347,6 +398,26 @@ static int do_send(struct side *x, struct op *o)
         }
         if (transient(err) && !x->blocking) {
             mc_set_progress(0);
+            if (g_bytestream && g_retry[0] && sent_total == 0 && o->len <= 12) {
+                /* the application changes its mind about what to offer next (C02: "whatever the
+                   application offers in its next call") */
+                if (x->n_refused < 8) {
+                    memcpy(x->refused[x->n_refused], buf, o->len);
+                    x->refused_at[x->n_refused] = x->bytes_sent_acc;
+                    x->refused_len[x->n_refused++] = o->len;
+                }
+                attempt++;
+                if (!strcmp(g_retry, "longer")) {
+                    if (o->len < olen0 + 4)
+                        o->len = olen0 + 4;       /* same prefix, more bytes */
+                    pay_fill(buf, m * 16, o->len);
+                } else if (!strcmp(g_retry, "different"))
+                    pay_fill(buf, m * 16 + (attempt % 15) + 1, o->len);
+                else if (!strcmp(g_retry, "shorter")) {
+                    if (o->len > 3)
+                        o->len = 3;
+                }
+            }
             if (!strict && cond_wait(x, XCM_SO_SENDABLE, "send-eagain") < 0)
                 return -1;
             continue;
@@ -359,7 +430,7 @@ static int do_send(struct side *x, struct op *o)
         }
         if (err == EMSGSIZE || err == EINVAL)
             return 0;              /* refused by size: move on */
-        x->term_errno = err;
+        terminal(x, "send", err);
         return -1;
     }
 }
@@ -398,6 +469,12 @@ static int do_recv(struct side *x, struct op *o, int until_eof)
         if (rc == 0) {
             x->eof_seen = 1;
             mc_set_progress(1);
+            struct side *p = peer_of(x);
+            if (!p->closed && !p->gave_up) {
+                char sig[128];
+                snprintf(sig, sizeof sig, "C06/eof-without-close/tp=%s", g_tp);
+                V("C06", sig, "%s: xcm_receive returned 0 although the peer has not closed", x->name);
+            }
             return until_eof ? 0 : -1;
         }
         if (transient(err) && !x->blocking) {
@@ -408,7 +485,7 @@ static int do_recv(struct side *x, struct op *o, int until_eof)
         }
         if (err == EINTR && x->blocking)
             continue;
-        x->term_errno = err;
+        terminal(x, "receive", err);
         return -1;
     }
 }
@@ -439,7 +516,7 @@ static int do_finish(struct side *x)
                 return -1;
             continue;
         }
-        x->term_errno = err;
+        terminal(x, "finish", err);
         return -1;
     }
 }
@@ -491,7 +568,7 @@ static int run_loop_style(struct side *x)
                 return -1;
             }
             if (rc < 0 && err != EAGAIN) {
-                x->term_errno = err;
+                terminal(x, "receive", err);
                 return -1;
             }
         }
@@ -511,7 +588,7 @@ static int run_loop_style(struct side *x)
                 si++;
                 progressed = 1;
             } else if (err != EAGAIN) {
-                x->term_errno = err;
+                terminal(x, "send", err);
                 return -1;
             }
         }
@@ -521,11 +598,26 @@ static int run_loop_style(struct side *x)
     return do_finish(x);
 }
 
+/* what an application does when its connection is gone: close the socket */
+static void give_up(struct side *x)
+{
+    if (x->s && !x->closed) {
+        if (!x->term_errno && !x->eof_seen)
+            x->term_errno = EIO;
+        API("xcm_close", !x->blocking, xcm_close(x->s));
+        x->closed = 1;
+        x->gave_up = 1;
+        x->s = NULL;
+    }
+}
+
 static void run_script(struct side *x)
 {
     if (!x->blocking && strcmp(g_style, "loop") == 0 && !g_bytestream) {
-        if (run_loop_style(x) < 0)
+        if (run_loop_style(x) < 0) {
             mc_observe("%s loop ended early eof=%d errno=%s", x->name, x->eof_seen, errname(x->term_errno));
+            give_up(x);
+        }
         return;
     }
     for (x->pc = 0; x->pc < x->nops; x->pc++) {
@@ -545,6 +637,7 @@ static void run_script(struct side *x)
         }
         if (rc < 0) {
             mc_observe("%s stops at op %d eof=%d errno=%s", x->name, x->pc, x->eof_seen, errname(x->term_errno));
+            give_up(x);
             return;
         }
     }
@@ -555,6 +648,8 @@ static struct xcm_attr_map *mk_attrs(int blocking)
 {
     struct xcm_attr_map *m = xcm_attr_map_create();
     xcm_attr_map_add_bool(m, "xcm.blocking", blocking);
+    if (g_bytestream)
+        xcm_attr_map_add_str(m, "xcm.service", "bytestream");
     return m;
 }
 
@@ -567,10 +662,15 @@ static void task_a(void *arg)
     x->s = API("xcm_connect_a", !x->blocking, xcm_connect_a(g_addr, at));
     xcm_attr_map_destroy(at);
     if (!x->s) {
-        mc_observe("A connect failed %s", errname(errno));
-        x->term_errno = errno;
-        V("C04", "C04/connect-failed-unexpectedly", "xcm_connect_a(%s) failed with %s although the server listens",
-          g_addr, errname(errno));
+        int e = errno;
+        mc_observe("A connect failed %s", errname(e));
+        x->term_errno = e;
+        x->gave_up = 1;
+        /* the only legitimate failure in this closed system: the environment delayed the
+           establishment beyond tcp.connect_timeout (3 s of virtual time) */
+        if (!(e == ETIMEDOUT && env_now_ns() - g_t0 >= 3000000000LL))
+            V("C04", "C04/connect-failed-unexpectedly", "xcm_connect_a(%s) failed with %s although the server listens",
+              g_addr, errname(e));
         return;
     }
     mc_observe("A connected");
@@ -596,8 +696,12 @@ static void task_b(void *arg)
             break;
         mc_observe("B accept -> %s", errname(errno));
         if (errno != EAGAIN) {
-            V("C04", "C04/accept-failed-unexpectedly", "xcm_accept_a failed with %s", errname(errno));
+            /* legitimate only when the client has already given up on this attempt */
+            if (!A.gave_up)
+                V("C04", "C04/accept-failed-unexpectedly", "xcm_accept_a failed with %s", errname(errno));
             xcm_attr_map_destroy(at);
+            x->term_errno = errno;
+            x->gave_up = 1;
             return;
         }
         mc_set_progress(0);
@@ -657,6 +761,9 @@ static void build_script(const char *name)
     } else if (strcmp(name, "S2") == 0) {     /* bytestream: a large write crossing a TLS record, then 3 bytes */
         add(&A, OP_SEND, 40000); add(&A, OP_SEND, 3); add(&A, OP_FINISH, 0); add(&A, OP_CLOSE, 0);
         add(&B, OP_RECV_EOF, 65536);
+    } else if (strcmp(name, "R1") == 0) {     /* bytestream: refused sends retried per policy (retry=...) */
+        add(&A, OP_SEND, 8); add(&A, OP_SEND, 8); add(&A, OP_SEND, 3); add(&A, OP_FINISH, 0); add(&A, OP_CLOSE, 0);
+        add(&B, OP_RECV_EOF, 65536);
     } else if (strcmp(name, "S3") == 0) {     /* bytestream both ways */
         add(&A, OP_SEND, 5); add(&A, OP_RECV, 64); A.ops[A.nops - 1].m = 4; add(&A, OP_FINISH, 0);
         add(&B, OP_SEND, 4); add(&B, OP_RECV, 2); B.ops[B.nops - 1].m = 5; add(&B, OP_FINISH, 0);
@@ -703,7 +810,7 @@ static int poll3(int fd)
 static void probes(void)
 {
     char sig[160];
-    env_cfg()->io_menu = 0;
+    env_reset_deviations();
     if (!A.s || !B.s || A.closed || B.closed || A.blocking || B.blocking)
         return;
     struct side *xs[2] = { &A, &B };
@@ -764,13 +871,10 @@ static void probes(void)
     }
     /* conversely: a queued message makes the descriptor readable at once */
     unsigned char one[8];
-    if (g_bytestream)
-        for (int j = 0; j < 3; j++)
-            one[j] = pay_byte(0, (size_t)(A.bytes_sent_acc + j));
-    else
-        pay_fill(one, 77, 3);
+    pay_fill(one, 77, 3);
     A.inflight = 77;
     A.inflight_len = 3;
+    A.inflight_buf = one;
     int rc = API("xcm_send", 1, xcm_send(A.s, one, 3));
     if (rc >= 0 && API("xcm_finish", 1, xcm_finish(A.s)) == 0) {
         on_send_result(&A, 77, 3, rc, 0);
@@ -923,6 +1027,7 @@ static void scenario(const char *params)
     param_get(params, "script", g_script, sizeof g_script, "T1");
     param_get(params, "style", g_style, sizeof g_style, "spec");
     param_get(params, "prop", g_prop, sizeof g_prop, "");
+    param_get(params, "retry", g_retry, sizeof g_retry, "");
     param_get(params, "certs", g_certs, sizeof g_certs, "");
     A.blocking = strcmp(param_get(params, "ma", b, sizeof b, "nb"), "b") == 0;
     B.blocking = strcmp(param_get(params, "mb", b, sizeof b, "nb"), "b") == 0;
@@ -930,11 +1035,14 @@ static void scenario(const char *params)
     g_resend = param_int(params, "resend", 1);
     g_probe = param_int(params, "probe", 1);
     g_sig = param_int(params, "sig", 0);
+    g_counters = param_int(params, "cnt", 1);
     g_bytestream = !strcmp(g_tp, "btcp") || !strcmp(g_tp, "btls");
     A.name = "A"; A.idx = 0; A.inflight = -1;
     B.name = "B"; B.idx = 1; B.inflight = -1;
     g_buf[0] = malloc(1 << 21);
     g_buf[1] = malloc(1 << 21);
+    A.stream = malloc(1 << 18);
+    B.stream = malloc(1 << 18);
     setenv("XCM_CTL", "/nonexistent-ctl-dir", 1);
     if (g_certs[0])
         setenv("XCM_TLS_CERT", g_certs, 1);
@@ -943,6 +1051,7 @@ static void scenario(const char *params)
                            .sleep_monitor = 1, .only_task = -1 };
     env_init(&cfg);
     env_register_events();
+    det_rand_install(1);
     mc_enable_signals(g_sig);
     mc_set_state_fn(state_digest);
     build_script(g_script);
@@ -959,6 +1068,7 @@ static void scenario(const char *params)
         g_addr[0] = 'u';
     }
 
+    g_t0 = env_now_ns();
     mc_task_create("A", task_a, NULL);
     mc_task_create("B", task_b, NULL);
     enum mc_end end = mc_run((int)param_int(params, "horizon", 3000));
